@@ -158,6 +158,7 @@ def run_tlc(module, cfg=None, workers=8, timeout=600, simulate=None, depth=None,
     res = TlcResult()
     res.cmd = " ".join(cmd)
     t0 = time.time()
+    timeout = timeout * load_scale()
     try:
         p = subprocess.run(cmd, cwd=SPEC, env=env, stdout=subprocess.PIPE, stderr=subprocess.STDOUT,
                            text=True, timeout=timeout)
@@ -224,6 +225,18 @@ def tlc_ok(res, what=""):
 # job supervisor
 # --------------------------------------------------------------------------------------------
 
+def load_scale():
+    """time-outs are sized for an idle 16-core box; stretch them when the machine is oversubscribed"""
+    try:
+        return max(1.0, os.getloadavg()[0] / float(os.cpu_count() or 16))
+    except Exception:
+        return 1.0
+
+
+def scaled_ms(ms):
+    return int(ms * load_scale())
+
+
 def _limits(mem_gb):
     def f():
         try:
@@ -244,6 +257,14 @@ def run_jobs(jobs, workers=8, job_timeout=20.0, mem_gb=6, hooks=True, subcmd="ex
     if not jobs:
         return results
     workers = max(1, min(workers, len(jobs)))
+    scale = load_scale()
+    job_timeout = job_timeout * scale
+    if scale > 1.0:
+        jobs = [dict(j, timeout=j["timeout"] * scale) if "timeout" in j else j for j in jobs]
+        for j in jobs:      # the in-process watchdog of individual queries
+            for st in j.get("steps", []):
+                if isinstance(st, dict) and "tmo_ms" in st:
+                    st["tmo_ms"] = int(st["tmo_ms"] * scale)
     shards = [jobs[i::workers] for i in range(workers)]
     import threading
 
